@@ -32,21 +32,22 @@ func vFindResp(resp [][]byte, id uint32) []byte {
 
 func vh_C15_write_read() {
 	vErrKinds = 0
+	ids := vIDs(2)
 	init, x := vNondetU8(), vNondetU8()
 	svr := vNewServer(false, "")
 	f := &vMFile{name: "/o", data: []byte{init, 7}, yield: true}
 	svr.openFiles["1"] = f
 	resp := vPipelineOpt(svr, []requestPacket{
-		&sshFxpWritePacket{ID: 1, Handle: "1", Offset: 0, Length: 1, Data: []byte{x}},
-		&sshFxpReadPacket{ID: 2, Handle: "1", Offset: 0, Len: 1},
+		&sshFxpWritePacket{ID: ids[0], Handle: "1", Offset: 0, Length: 1, Data: []byte{x}},
+		&sshFxpReadPacket{ID: ids[1], Handle: "1", Offset: 0, Len: 1},
 	}, false)
 	vAssert(len(resp) == 2, "two responses")
-	r := vFindResp(resp, 2)
+	r := vFindResp(resp, ids[1])
 	v, ok := vDataOf(r)
 	vAssert(ok, "the read is answered with one byte of data")
 	vAssert(v == init || v == x, "the read returns the content before or after the write, nothing else")
 	vAssert(f.data[0] == x && f.data[1] == 7, "final content is the written value, neighbours untouched")
-	c, isS := vStatusCode(vFindResp(resp, 1))
+	c, isS := vStatusCode(vFindResp(resp, ids[0]))
 	vAssert(isS && c == sshFxOk, "the write succeeds")
 }
 
@@ -55,37 +56,39 @@ func vh_C15_write_read() {
 //verif:tier thorough
 func vh_C15_write_read_fstat() {
 	vErrKinds = 0
+	ids := vIDs(3)
 	init, x := vNondetU8(), vNondetU8()
 	svr := vNewServer(false, "")
 	f := &vMFile{name: "/o", data: []byte{init, 7}, yield: true}
 	svr.openFiles["1"] = f
 	resp := vPipelineOpt(svr, []requestPacket{
-		&sshFxpWritePacket{ID: 1, Handle: "1", Offset: 0, Length: 1, Data: []byte{x}},
-		&sshFxpReadPacket{ID: 2, Handle: "1", Offset: 0, Len: 1},
-		&sshFxpFstatPacket{ID: 3, Handle: "1"},
+		&sshFxpWritePacket{ID: ids[0], Handle: "1", Offset: 0, Length: 1, Data: []byte{x}},
+		&sshFxpReadPacket{ID: ids[1], Handle: "1", Offset: 0, Len: 1},
+		&sshFxpFstatPacket{ID: ids[2], Handle: "1"},
 	}, false)
 	vAssert(len(resp) == 3, "three responses")
-	v, ok := vDataOf(vFindResp(resp, 2))
+	v, ok := vDataOf(vFindResp(resp, ids[1]))
 	vAssert(ok && (v == init || v == x), "the read returns the content before or after the write, nothing else")
 	vAssert(f.data[0] == x && f.data[1] == 7, "final content is the written value, neighbours untouched")
-	st := vFindResp(resp, 3)
+	st := vFindResp(resp, ids[2])
 	vAssert(st != nil && st[4] == sshFxpAttrs && vBE64(st[13:]) == 2, "the size query reports the (unchanged) size")
 }
 
 //verif:tier thorough
 func vh_C15_two_writes_read() {
 	vErrKinds = 0
+	ids := vIDs(3)
 	init, x, y := vNondetU8(), vNondetU8(), vNondetU8()
 	svr := vNewServer(false, "")
 	f := &vMFile{name: "/o", data: []byte{init}, yield: true}
 	svr.openFiles["1"] = f
 	resp := vPipelineOpt(svr, []requestPacket{
-		&sshFxpWritePacket{ID: 1, Handle: "1", Offset: 0, Length: 1, Data: []byte{x}},
-		&sshFxpWritePacket{ID: 2, Handle: "1", Offset: 0, Length: 1, Data: []byte{y}},
-		&sshFxpReadPacket{ID: 3, Handle: "1", Offset: 0, Len: 1},
+		&sshFxpWritePacket{ID: ids[0], Handle: "1", Offset: 0, Length: 1, Data: []byte{x}},
+		&sshFxpWritePacket{ID: ids[1], Handle: "1", Offset: 0, Length: 1, Data: []byte{y}},
+		&sshFxpReadPacket{ID: ids[2], Handle: "1", Offset: 0, Len: 1},
 	}, false)
 	vAssert(len(resp) == 3, "three responses")
-	v, ok := vDataOf(vFindResp(resp, 3))
+	v, ok := vDataOf(vFindResp(resp, ids[2]))
 	vAssert(ok, "the read is answered with one byte of data")
 	vAssert(v == init || v == x || v == y, "the read returns a value the byte had under some serialisation")
 	vAssert(f.data[0] == x || f.data[0] == y, "final content is one of the written values")
